@@ -7,6 +7,7 @@ import itertools
 import os
 import subprocess
 
+import gitfmt
 from common import hx, unhx, scratch_dir
 
 REQUIRED = [
@@ -242,6 +243,7 @@ def check_cases(ctx, cases):
             ctx.count("mode=canonical" if p in CANON else "mode=other")
         d = impl_dir(es)
         man = git_objects.directory_git_object(d)
+        gitfmt.dict_form_agrees(ctx, case, git_objects.directory_git_object, d, man)
         rec = {"manifest": man, "id": d.id, "swhid": str(d.swhid())}
         impl.append(rec)
         reqs.append({"op": "dir_manifest", "entries": case["entries"]})
